@@ -22,3 +22,20 @@ Fixpoint bad_idx (n : nat) (l : list bool) : list nat :=
   | [] => []
   | b :: tl => if b then bad_idx (S n) tl else n :: bad_idx (S n) tl
   end.
+
+(* OneOf / SomeOf constructors: transforms_ps must be p_i / sum p (compared at 1e-12) *)
+From Coq Require Import QArith Qabs.
+Definition weights (kids : list node) : list Q :=
+  let s := fold_right (fun k acc => (node_p k + acc)%Q) 0%Q kids in map (fun k => (node_p k / s)%Q) kids.
+Definition node_kids (t : node) : list node :=
+  match t with
+  | Leaf _ _ _ => []
+  | Comp _ k | OneOfN _ k | SomeOfN _ _ _ k | OneOrOtherN _ k | SeqN _ k => k
+  end.
+Fixpoint qlist_close (a b : list Q) : bool :=
+  match a, b with
+  | [], [] => true
+  | x :: a', y :: b' => Qle_bool (Qabs (x - y)) (1 # 1000000000000) && qlist_close a' b'
+  | _, _ => false
+  end.
+Definition check_weights (t : node) (recorded : list Q) : bool := qlist_close (weights (node_kids t)) recorded.
